@@ -221,6 +221,26 @@ CHECKS = {
         design_ref='§7 C02',
         note=NOTE_COMMON + 'Titles containing a quote character are out of scope. The in-memory workbook mirrors the structure Excel.parse delivers (C18 checks the reader).',
         technique='TLA+ reference printer + parser + denotation with TLC-checked round trip, TLC-enumerated references replayed on coordinate-encoding workbooks, trace validation'),
+    'C18': dict(
+        category='model_checking',
+        text=('The specification states what the reader must deliver (Workbook: content at every coordinate, size = bounding box of the stored cells, titles in '
+              'workbook order). TLC enumerates workbook layouts - 1..3 sheets, subsets of a 3x3 corner grid plus beacons at D7, AA1, A100, XFD3, ten content kinds '
+              'rotated over the cells - and checks WellFormed and SizesAreBoundingBox on each. Binding: every layout is written to a real xlsx file and read '
+              'through Parser.write_translation + Executor(class_file); titles, sizes, and the value and type at every coordinate of the bounding box plus one '
+              'ring are recorded and judged by TLC (Trace_C18: At / SizeOf / title order).'),
+        design_ref='§7 C18',
+        note=NOTE_COMMON + 'openpyxl is both writer and decoder: dates come back as date-times at midnight, array formulas are compared by their value, floats carry a fractional part.',
+        technique='TLA+ reader specification, TLC-enumerated layouts written to real files, trace validation of what the public path delivers'),
+    'C19': dict(
+        category='model_checking',
+        text=('The specification contains the gate at character level (Workbook.Judge: call-syntax fragments found left to right, upper-case exemption, mixed cells '
+              'out of scope) and the report key (quoted title + A1 address of the true coordinate, letters by the bijective base-26 printer). TLC enumerates '
+              'placements of 1..2 fragments out of 11 on a 4x5 grid of two sheets with the verdict per cell. Binding: every placement is written to a real xlsx '
+              'file and the gate is exercised enabled and disabled (Excel.parse + is_safe for all, Parser.get_translation for a sample); exception type and the '
+              'suspicious_cells mapping are judged by TLC (Trace_C19: raised <=> enabled and something listed; keys and fragments exact).'),
+        design_ref='§7 C19',
+        note=NOTE_COMMON + 'Placements are a fixed residue class of the coordinate grid (quick 1/40, thorough 1/4).',
+        technique='TLA+ character-level gate specification, TLC-enumerated placements written to real files, trace validation of exception and report'),
 }
 
 NOT_APPLICABLE = {}
